@@ -121,18 +121,22 @@ func init() {
 		})
 	}
 	p.Strata = append(p.Strata, mon.Stratum{
-		Name: "type-confusable-elements/MERGE",
+		Name: "type-confusable-elements",
 		N:    qt(2000, 100000),
 		Run: func(c *mon.Ctx, i int) {
 			// arrays (replaced wholesale in merge mode) that are identical except for one element
 			// whose two values are easy to confuse: a number and the 8-byte string with its bit
 			// pattern, a value and its spelling, empty containers of different kinds
 			var twins [][2]any
-			for _, f := range aliasNumbers {
-				s, _ := aliasString(f)
-				twins = append(twins, [2]any{s, f})
+			o := []OptSet{OptMerge, OptSetMerge, OptMsMerge}[(i/7)%3]
+			if !o.Merge || o.Reading == ref.List {
+				// the digest twins of open finding F8 only under the list reading (set readings compare digests)
+				for _, f := range aliasNumbers {
+					s, _ := aliasString(f)
+					twins = append(twins, [2]any{s, f})
+				}
 			}
-			twins = append(twins, [2]any{"1", 1.0}, [2]any{"true", true}, [2]any{"", []any{}}, [2]any{[]any{}, map[string]any{}}, [2]any{"{}", map[string]any{}}, [2]any{0.0, false}, [2]any{"a", "a\n"})
+			twins = append(twins, [2]any{"y", "y\u0000"}, [2]any{"", "\u0000"}, [2]any{"ab", "ab "}, [2]any{"1", 1.0}, [2]any{"true", true}, [2]any{"", []any{}}, [2]any{[]any{}, map[string]any{}}, [2]any{"{}", map[string]any{}}, [2]any{0.0, false}, [2]any{"a", "a\n"})
 			t := twins[i%len(twins)]
 			if c.R.Chance(0.5) {
 				t[0], t[1] = t[1], t[0]
@@ -153,7 +157,7 @@ func init() {
 				return gen.Wrap(l, 1+i%2*2)
 			}
 			c.Feature("type_confusable_elements")
-			c11Case(c, ref.ToJSON(mk(t[0])), ref.ToJSON(mk(t[1])), OptMerge)
+			c11Case(c, ref.ToJSON(mk(t[0])), ref.ToJSON(mk(t[1])), o)
 		},
 	})
 	small := smallMergeDocs(false)
